@@ -26,6 +26,14 @@ def graphs(rng, tier):
     n = 400
     out.append((n, np.arange(n - 1), np.arange(1, n)))                        # a long chain (needs many sweeps)
     out.append((n, np.arange(1, n)[::-1].copy(), np.arange(n - 1)[::-1].copy()))
+    out.append((3, np.array([1]), np.array([2])))                             # a single pair
+    out.append((3, np.array([1, 0, 0]), np.array([2, 2, 0])))                 # the first pair's end is lowered by a later pair
+    n = 60
+    out.append((n, np.zeros(n - 1, int), np.arange(1, n)))                    # a star
+    for _ in range(40 if tier == "quick" else 400):                           # small graphs in random pair order (few redundant edges)
+        n = int(rng.randint(2, 12))
+        m = int(rng.randint(1, n + 2))
+        out.append((n, rng.randint(0, n, m), rng.randint(0, n, m)))
     for _ in range(12 if tier == "quick" else 120):
         n = int(rng.randint(2, 3000))
         m = int(rng.randint(0, 2 * n))
@@ -36,12 +44,33 @@ def graphs(rng, tier):
     return out
 
 
+def small_graphs(tier):
+    """every pair list of length 1..3 (thorough: 4 nodes, quick: 3 nodes) over ordered pairs (a, b), in every order: exhaustive"""
+    import itertools
+    n = 3 if tier == "quick" else 4
+    pairs = [(a, b) for a in range(n) for b in range(n)]
+    for m in (1, 2, 3):
+        for seq in itertools.product(pairs, repeat=m):
+            yield n, np.array([p[0] for p in seq]), np.array([p[1] for p in seq])
+
+
 def b_labels(ctx):
     import numba
     pr = repo_module("ImageD11.sinograms.properties")
     rng = np.random.RandomState(ctx.seed)
     fails, ev, nt, samples = [], 0, 0, []
     nmax = numba.config.NUMBA_NUM_THREADS
+    numba.set_num_threads(min(2, nmax))
+    for n, ii, jj in small_graphs(ctx.tier):
+        ref = uf_components(n, ii, jj)
+        nlab, labels = pr.find_ND_labels(ii.astype(int), jj.astype(int), n, verbose=0)
+        ev += 1
+        nt += 1
+        ok = nlab == len(set(ref)) and sorted(set(labels.tolist())) == list(range(nlab)) and \
+            all((labels[a] == labels[b]) == (ref[a] == ref[b]) for a in range(n) for b in range(n))
+        if not ok and len(fails) < 5:
+            fails.append(dict(name="find_ND_labels differs from connected components", n=n, i=ii.tolist(), j=jj.tolist(), labels=labels.tolist(),
+                              got_n=int(nlab), want_n=len(set(ref))))
     for n, ii, jj in graphs(rng, ctx.tier):
         ref = uf_components(n, ii, jj)
         roots = sorted(set(ref))
@@ -64,7 +93,8 @@ def b_labels(ctx):
             samples.append(dict(n=n, edges=int(len(ii)), components=len(roots)))
     numba.set_num_threads(nmax)
     return dict(evaluations=ev, distinct_nontrivial=max(2, nt), samples=samples, failures=fails,
-                rule="empty / self-loop / duplicate-edge / long-chain graphs + seeded random graphs up to 3000 nodes, threads in {1,2,8,max}; "
+                rule="every pair list of length 1..3 on 3 (thorough 4) nodes in every order; empty / self-loop / duplicate-edge / single-pair / star / "
+                     "long-chain graphs, small random graphs in random pair order, seeded random graphs up to 3000 nodes, threads in {1,2,8,max}; "
                      "non-trivial = graph with at least one edge")
 
 
@@ -141,5 +171,5 @@ def b_merge(ctx):
 
 
 def units():
-    return [BoundedUnit("labels-vs-union-find", b_labels, "17 (thorough 125) graphs x 4 thread counts"),
+    return [BoundedUnit("labels-vs-union-find", b_labels, "every pair list of length <= 3 on 3 (thorough 4) nodes; 60 (thorough 528) further graphs x 4 thread counts"),
             BoundedUnit("merged-properties-vs-bincount", b_merge, "5 (thorough 7) size classes x scale on/off x 3 thread counts")]
